@@ -597,6 +597,12 @@ def run(ck):
         c18_8(ck, prog)
         from rules.C07 import c07_9
         c07_9(ck, prog, 'C18.9')
+        from rules.C03 import c03_1
+        lib.shared_rule(ck, prog, 'C18.12', 'what a monitor is shown carries the sender the bus vouches for: every sink of '
+                        'bus_dispatch through which the incoming message can be seen (the capture for monitors included) lies '
+                        'behind the stripping of unknown fields and the sender stamp, on every path (shared with C03.1)', 'DOM',
+                        'a client that has not said Hello yet puts a forged SENDER into its message and the monitors are '
+                        'shown it as if it came from somebody else', 3, c03_1)
         from rules.C10 import c10_12
         c10_12(ck, prog, 'C18.10')
         from rules import listops
